@@ -36,6 +36,9 @@ type simIn struct {
 	CrashCall int    `json:"crash_call"` // >0: the manager that processes a request dies before its k-th external call of that iteration
 	NextSame  bool   `json:"next_same"`  // the crashed manager's host restarts mysync at once (may become the next manager)
 	Ticks     int    `json:"ticks"`
+	NoSemiSync bool  `json:"no_semi_sync,omitempty"`
+	SlowApply int    `json:"slow_apply,omitempty"` // host whose SQL thread is busy from tick At-1 ...
+	SlowFor   int    `json:"slow_for,omitempty"`   // ... for that many ticks (it keeps receiving and acknowledging)
 }
 
 type simProc struct {
@@ -59,6 +62,9 @@ type simOut struct {
 	CrashedAt  int
 	Calls      int // external calls of the crashed iteration before the crash point
 	Trace      []string
+	Steps      []string // state-handler steps kept for the correspondence check (sampled): mgr_case terms
+	Prefix     []string // the crashed iteration: a prefix of a model run
+	Hosts      []string
 }
 
 type simWorld struct {
@@ -81,6 +87,10 @@ type simWorld struct {
 	nextPort   int
 	all        []*vApp
 	ioDown     map[*vk.Chan]bool
+	cur        *mgrStep
+	curCfg     *config.Config
+	curTurbo   bool
+	stepNo     int
 }
 
 func (s *simWorld) tune(cfg *config.Config) {
@@ -88,7 +98,7 @@ func (s *simWorld) tune(cfg *config.Config) {
 	cfg.FailoverDelay = 0
 	cfg.FailoverCooldown = 0
 	cfg.InactivationDelay = 10 * time.Second
-	cfg.SemiSync = true
+	cfg.SemiSync = !s.in.NoSemiSync
 	cfg.RplSemiSyncMasterWaitForSlaveCount = s.in.WaitCount
 	cfg.SlaveCatchUpTimeout = 10 * time.Second
 	cfg.WaitReplicationStartTimeout = 3 * time.Second
@@ -276,13 +286,34 @@ func (s *simWorld) step(p *simProc, tick int) {
 	run := func(what string, f func()) {
 		defer func() {
 			if r := recover(); r != nil {
-				s.out.Panics = append(s.out.Panics, fmt.Sprintf("tick %d %s %s: %v", tick, p.host, what, r))
+				s.out.Panics = append(s.out.Panics, fmt.Sprintf("tick %d %s %s: %v (%s)", tick, p.host, what, r, vPanicSite()))
+				if s.cur != nil {
+					s.cur.Panic = fmt.Sprint(r)
+				}
 				// the daemon dies and is restarted by its supervisor
 				s.startProc(p.host)
 			}
 		}()
 		f()
 	}
+	fileState := func() map[string]bool {
+		r := map[string]bool{}
+		_, e1 := os.Stat(p.va.cfg.Maintenancefile)
+		_, e2 := os.Stat(p.va.cfg.Emergefile)
+		r["maintenance"], r["emerge"] = e1 == nil, e2 == nil
+		return r
+	}
+	var st mgrStep
+	st.State = p.state
+	st.MemBefore = mgrMemGal(app)
+	st.Files = fileState()
+	st.T0 = time.Now().UnixNano() - vEpoch
+	turbo := false
+	if sw := new(Switchover); p.va.cfg.SemiSync && s.root.rawGet(pathCurrentSwitch, sw) && sw.MasterTransition == SwitchoverTransition {
+		turbo = true // the semi-sync speed-up phase (C19) is not part of perform_switchover's model
+	}
+	s.w.ResetTranscript()
+	s.cur, s.curCfg, s.curTurbo = &st, p.va.cfg, turbo
 	run("state "+string(p.state), func() {
 		switch p.state {
 		case stateFirstRun:
@@ -298,6 +329,21 @@ func (s *simWorld) step(p *simProc, tick int) {
 			p.state = app.stateMaintenance()
 		}
 	})
+	synctest.Wait()
+	st.Next = p.state
+	st.Trans = s.w.Transcript()
+	st.FailedAfter = mgrFailed(app)
+	st.FilesAfter = fileState()
+	mutating := false
+	for _, e := range st.Trans {
+		if e.Mut {
+			mutating = true
+		}
+	}
+	s.stepNo++
+	if !turbo && st.Panic == "" && p.alive && !p.frozen && (mutating && s.stepNo%2 == 0 || s.stepNo%11 == 0) && len(s.out.Steps) < 40 {
+		s.out.Steps = append(s.out.Steps, mgrCases(mgrIn{}, mgrOut{Steps: []mgrStep{st}, Cfg: p.va.cfg, Hosts: s.hosts})...)
+	}
 	if !p.alive || p.frozen {
 		return
 	}
@@ -331,7 +377,9 @@ func simRun(in simIn) simOut {
 		n := &vk.Node{Host: h, UUID: hostUUID(h), Up: true, Executed: u1 + ":1-100"}
 		switch {
 		case i == 1:
-			n.SSMaster, n.WaitCount = true, min(in.WaitCount, max(1, (in.N-1)))
+			if !in.NoSemiSync {
+				n.SSMaster, n.WaitCount = true, min(in.WaitCount, max(1, (in.N-1)))
+			}
 			n.NextGno = 100
 		default:
 			n.RO, n.SuperRO = true, true
@@ -341,7 +389,7 @@ func simRun(in simIn) simOut {
 			}
 			n.Chan = &vk.Chan{Source: src, IO: true, SQL: true}
 			n.Retrieved = n.Executed
-			if i <= in.N {
+			if i <= in.N && !in.NoSemiSync {
 				n.SSSlave, n.SSSlaveEffective = true, true
 			}
 		}
@@ -403,6 +451,13 @@ func simRun(in simIn) simOut {
 	out.CrashedAt = -1
 	healed := in.Fault == ""
 	for tick := 0; tick < in.Ticks; tick++ {
+		if in.SlowApply > 0 {
+			w.Mu.Lock()
+			if n := w.Nodes[fmt.Sprintf("h%d", in.SlowApply)]; n != nil {
+				n.ApplyHold = tick >= in.At-1 && tick < in.At-1+in.SlowFor
+			}
+			w.Mu.Unlock()
+		}
 		order := append([]string{}, s.hosts...)
 		rng.Shuffle(len(order), func(i, j int) { order[i], order[j] = order[j], order[i] })
 		for k, h := range order {
@@ -452,6 +507,14 @@ func simRun(in simIn) simOut {
 					s.mu.Unlock()
 				} else {
 					out.CrashedAt = tick
+					if s.cur != nil && s.cur.State == stateManager {
+						pre := *s.cur
+						pre.Trans = s.w.Transcript()
+						pre.FilesAfter = pre.Files
+						if !s.curTurbo {
+							out.Prefix = append(out.Prefix, mgrCases(mgrIn{}, mgrOut{Steps: []mgrStep{pre}, Cfg: s.curCfg, Hosts: s.hosts})...)
+						}
+					}
 					p.alive, p.frozen = false, true
 					p.d.sessionEnd()
 					out.Trace = append(out.Trace, fmt.Sprintf("tick %d: manager %s died before call %d", tick, h, in.CrashCall))
@@ -521,6 +584,7 @@ func simRun(in simIn) simOut {
 	root.rawGet(pathMasterNode, &out.Master)
 	out.Pending = root.rawHas(pathCurrentSwitch)
 	out.Acked = s.acked
+	out.Hosts = s.hosts
 	// let the dead process' goroutine go (its calls fail from now on)
 	w.Mu.Lock()
 	for c := range w.Partition {
@@ -590,4 +654,36 @@ func simCheck(in simIn, out simOut) []string {
 		v = append(v, fmt.Sprintf("acknowledged transactions missing on %s: %s", out.Master, strings.Join(lost, ", ")))
 	}
 	return v
+}
+
+
+// simCases collects the mgr_case terms of simulated iterations into sharded case files
+type simCases struct {
+	o       *vk.Out
+	m       *vk.Meta
+	prefix  string
+	checker string
+	shard   int
+	cases   []string
+}
+
+func (c *simCases) add(in simIn, cs []string) {
+	for _, x := range cs {
+		file := fmt.Sprintf("%s_%02d", c.prefix, c.shard)
+		c.cases = append(c.cases, x)
+		c.m.Cases[file] = append(c.m.Cases[file], in)
+		if len(c.cases) >= 60 {
+			c.flush()
+		}
+	}
+}
+
+func (c *simCases) flush() {
+	if len(c.cases) == 0 {
+		return
+	}
+	imports := []string{"Gtid.GtidSet", "Base.Prog", "Base.Config", "Base.Replay", "Procs.NodeOps", "Procs.ActiveNodes", "Procs.Switchover", "Procs.Repair", "Procs.Manager", "Corr.C13", "Corr.Mgr"}
+	c.o.CasesFile(fmt.Sprintf("%s_%02d", c.prefix, c.shard), imports, "mgr_case", c.cases, c.checker)
+	c.cases = nil
+	c.shard++
 }
